@@ -274,205 +274,213 @@ func unusableByTokens(toks hclsyntax.Tokens) (bool, string) {
 func TestC15_Native(t *testing.T) {
 	hx.Run(t, "C15", "Native", 12000,
 		"byte string (valid programs, G-MUT mutants, concatenations, hostile bytes; <=4 KiB) fed to ParseConfig, ParseExpression, ParseTemplate, ParseTraversalAbs, ParseTraversalPartial; oracle: no panic, non-nil result, same result twice, unusable result (never-valid token, ExprSyntaxError, silently skipped token) implies an error diagnostic, well-formed in-bounds diagnostics, schema application and evaluation in random scopes (known/unknown/marked/null) panic-free; non-trivial = rejected mutant of a valid program, or accepted and evaluated; distinct by input",
-		func(c *hx.Case) {
-			t := c.T
-			text, kind := drawHostileInput(t)
-			if len(text) > 4096 {
-				text = text[:4096]
-			}
-			src := []byte(text)
-			c.SetBytes("input", src)
-			c.Class("input_" + kind)
-			if hugeExpNative.Match(src) {
-				c.Class("excluded_huge_exponent")
-				c.Done(false, "")
-				return
-			}
-			files := map[string]*hcl.File{}
-			rejected, evaluated := false, false
-
-			// --- ParseConfig
-			var f *hcl.File
-			var diags hcl.Diagnostics
-			c.Guard("ParseConfig", func() { f, diags = hclsyntax.ParseConfig(src, "t.hcl", hcl.InitialPos) })
-			if f == nil || f.Body == nil {
-				c.Failf("nil-result", "ParseConfig returned a nil file or body")
-			}
-			files["t.hcl"] = f
-			checkDiags(c, "ParseConfig", diags, len(src), hcl.InitialPos)
-			f2, diags2 := hclsyntax.ParseConfig(append([]byte{}, src...), "t.hcl", hcl.InitialPos)
-			if diagsDump(diags) != diagsDump(diags2) || dumpSyntax(f.Body) != dumpSyntax(f2.Body) {
-				c.Failf("nondeterministic", "ParseConfig returned different results for the same input")
-			}
-			toks, _ := hclsyntax.LexConfig(src, "t.hcl", hcl.InitialPos)
-			body := f.Body.(*hclsyntax.Body)
-			if !diags.HasErrors() {
-				if bad, why := unusableByTokens(toks); bad {
-					if strings.Contains(why, "ill-formed UTF-8") && c.Known("ident-swallows-illformed-utf8") {
-						c.Class("known_ident_swallow")
-					} else {
-						c.Failf("unusable-without-error", "ParseConfig reported no error although %s", why)
-					}
-				}
-				if hasSyntaxError(body) {
-					c.Failf("syntax-error-node-without-error", "ParseConfig returned an ExprSyntaxError node without an error diagnostic")
-				}
-				var ranges []hcl.Range
-				for _, a := range body.Attributes {
-					ranges = append(ranges, a.SrcRange)
-				}
-				for _, b := range body.Blocks {
-					ranges = append(ranges, b.Range())
-				}
-				for _, tk := range significantTokens(toks) {
-					if !withinAny(tk, ranges) {
-						c.Failf("silent-loss", "ParseConfig reported no error but token %s %q at byte %d lies outside every attribute and block", tk.Type, tk.Bytes, tk.Range.Start.Byte)
-					}
-				}
-				if utf8.Valid(src) {
-					// an error inside a nested expression must not get lost either
-					checkNoLostDiagnostics(c, src, body)
-				}
-			} else {
-				rejected = true
-			}
-			_ = renderDiags(c, diags, files)
-			exerciseBody(c, "native", f.Body, len(src), !diags.HasErrors(), 0)
-			if !diags.HasErrors() && len(body.Attributes) > 0 {
-				evaluated = true
-			}
-
-			// --- ParseExpression / ParseTemplate
-			for _, m := range []struct {
-				name  string
-				parse func([]byte, string, hcl.Pos) (hclsyntax.Expression, hcl.Diagnostics)
-				lex   func([]byte, string, hcl.Pos) (hclsyntax.Tokens, hcl.Diagnostics)
-			}{{"ParseExpression", hclsyntax.ParseExpression, hclsyntax.LexExpression}, {"ParseTemplate", hclsyntax.ParseTemplate, hclsyntax.LexTemplate}} {
-				var e hclsyntax.Expression
-				c.Guard(m.name, func() { e, diags = m.parse(src, "t.hcl", hcl.InitialPos) })
-				if e == nil {
-					c.Failf("nil-result", "%s returned a nil expression", m.name)
-				}
-				checkDiags(c, m.name, diags, len(src), hcl.InitialPos)
-				e2, diags2 := m.parse(append([]byte{}, src...), "t.hcl", hcl.InitialPos)
-				if diagsDump(diags) != diagsDump(diags2) || dumpSyntax(e) != dumpSyntax(e2) {
-					c.Failf("nondeterministic", "%s returned different results for the same input", m.name)
-				}
-				etoks, _ := m.lex(src, "t.hcl", hcl.InitialPos)
-				if !diags.HasErrors() {
-					if bad, why := unusableByTokens(etoks); bad {
-						if strings.Contains(why, "ill-formed UTF-8") && c.Known("ident-swallows-illformed-utf8") {
-							c.Class("known_ident_swallow")
-						} else {
-							c.Failf("unusable-without-error", "%s reported no error although %s", m.name, why)
-						}
-					}
-					if hasSyntaxError(e) {
-						c.Failf("syntax-error-node-without-error", "%s returned an ExprSyntaxError node without an error diagnostic", m.name)
-					}
-					if m.name == "ParseExpression" {
-						for _, tk := range significantTokens(etoks) {
-							if !withinAny(tk, []hcl.Range{e.Range()}) {
-								c.Failf("silent-loss", "%s reported no error but token %s %q at byte %d lies outside the expression's range %v", m.name, tk.Type, tk.Bytes, tk.Range.Start.Byte, e.Range())
-							}
-						}
-					}
-					var vars []hcl.Traversal
-					c.Guard(m.name+" Variables", func() { vars = e.Variables() })
-					ctx, desc := randomCtx(t, vars)
-					c.Set("eval_scope", desc)
-					var ediags hcl.Diagnostics
-					c.Guard(m.name+" Value", func() { _, ediags = e.Value(ctx) })
-					checkDiags(c, m.name+" Value", ediags, len(src), hcl.InitialPos)
-					_ = renderDiags(c, ediags, files)
-					c.Guard(m.name+" Value(nil)", func() { _, ediags = e.Value(nil) })
-					checkDiags(c, m.name+" Value(nil)", ediags, len(src), hcl.InitialPos)
-					evaluated = true
-				} else {
-					rejected = true
-				}
-			}
-
-			// --- traversal parsers
-			for _, m := range []struct {
-				name  string
-				parse func([]byte, string, hcl.Pos) (hcl.Traversal, hcl.Diagnostics)
-			}{{"ParseTraversalAbs", hclsyntax.ParseTraversalAbs}, {"ParseTraversalPartial", hclsyntax.ParseTraversalPartial}} {
-				var tr hcl.Traversal
-				c.Guard(m.name, func() { tr, diags = m.parse(src, "t.hcl", hcl.InitialPos) })
-				checkDiags(c, m.name, diags, len(src), hcl.InitialPos)
-				tr2, diags2 := m.parse(append([]byte{}, src...), "t.hcl", hcl.InitialPos)
-				if diagsDump(diags) != diagsDump(diags2) || travString(tr) != travString(tr2) {
-					c.Failf("nondeterministic", "%s returned different results for the same input", m.name)
-				}
-				if !diags.HasErrors() {
-					if len(tr) == 0 {
-						c.Failf("empty-traversal-without-error", "%s returned an empty traversal without an error", m.name)
-					}
-					etoks, _ := hclsyntax.LexExpression(src, "t.hcl", hcl.InitialPos)
-					if bad, why := unusableByTokens(etoks); bad && !(strings.Contains(why, "ill-formed UTF-8") && c.Known("ident-swallows-illformed-utf8")) {
-						c.Failf("unusable-without-error", "%s reported no error although %s", m.name, why)
-					}
-					c.Class("traversal_accepted")
-				}
-			}
-			mutantLike := kind == "mutant" || kind == "concat"
-			c.Done((rejected && mutantLike) || evaluated, text)
-		})
+		caseC15Native)
 }
+
+func caseC15Native(c *hx.Case) {
+	t := c.T
+	text, kind := drawHostileInput(t)
+	if len(text) > 4096 {
+		text = text[:4096]
+	}
+	src := []byte(text)
+	c.SetBytes("input", src)
+	c.Class("input_" + kind)
+	if hugeExpNative.Match(src) {
+		c.Class("excluded_huge_exponent")
+		c.Done(false, "")
+		return
+	}
+	files := map[string]*hcl.File{}
+	rejected, evaluated := false, false
+
+	// --- ParseConfig
+	var f *hcl.File
+	var diags hcl.Diagnostics
+	c.Guard("ParseConfig", func() { f, diags = hclsyntax.ParseConfig(src, "t.hcl", hcl.InitialPos) })
+	if f == nil || f.Body == nil {
+		c.Failf("nil-result", "ParseConfig returned a nil file or body")
+	}
+	files["t.hcl"] = f
+	checkDiags(c, "ParseConfig", diags, len(src), hcl.InitialPos)
+	f2, diags2 := hclsyntax.ParseConfig(append([]byte{}, src...), "t.hcl", hcl.InitialPos)
+	if diagsDump(diags) != diagsDump(diags2) || dumpSyntax(f.Body) != dumpSyntax(f2.Body) {
+		c.Failf("nondeterministic", "ParseConfig returned different results for the same input")
+	}
+	toks, _ := hclsyntax.LexConfig(src, "t.hcl", hcl.InitialPos)
+	body := f.Body.(*hclsyntax.Body)
+	if !diags.HasErrors() {
+		if bad, why := unusableByTokens(toks); bad {
+			if strings.Contains(why, "ill-formed UTF-8") && c.Known("ident-swallows-illformed-utf8") {
+				c.Class("known_ident_swallow")
+			} else {
+				c.Failf("unusable-without-error", "ParseConfig reported no error although %s", why)
+			}
+		}
+		if hasSyntaxError(body) {
+			c.Failf("syntax-error-node-without-error", "ParseConfig returned an ExprSyntaxError node without an error diagnostic")
+		}
+		var ranges []hcl.Range
+		for _, a := range body.Attributes {
+			ranges = append(ranges, a.SrcRange)
+		}
+		for _, b := range body.Blocks {
+			ranges = append(ranges, b.Range())
+		}
+		for _, tk := range significantTokens(toks) {
+			if !withinAny(tk, ranges) {
+				c.Failf("silent-loss", "ParseConfig reported no error but token %s %q at byte %d lies outside every attribute and block", tk.Type, tk.Bytes, tk.Range.Start.Byte)
+			}
+		}
+		if utf8.Valid(src) {
+			// an error inside a nested expression must not get lost either
+			checkNoLostDiagnostics(c, src, body)
+		}
+	} else {
+		rejected = true
+	}
+	_ = renderDiags(c, diags, files)
+	exerciseBody(c, "native", f.Body, len(src), !diags.HasErrors(), 0)
+	if !diags.HasErrors() && len(body.Attributes) > 0 {
+		evaluated = true
+	}
+
+	// --- ParseExpression / ParseTemplate
+	for _, m := range []struct {
+		name  string
+		parse func([]byte, string, hcl.Pos) (hclsyntax.Expression, hcl.Diagnostics)
+		lex   func([]byte, string, hcl.Pos) (hclsyntax.Tokens, hcl.Diagnostics)
+	}{{"ParseExpression", hclsyntax.ParseExpression, hclsyntax.LexExpression}, {"ParseTemplate", hclsyntax.ParseTemplate, hclsyntax.LexTemplate}} {
+		var e hclsyntax.Expression
+		c.Guard(m.name, func() { e, diags = m.parse(src, "t.hcl", hcl.InitialPos) })
+		if e == nil {
+			c.Failf("nil-result", "%s returned a nil expression", m.name)
+		}
+		checkDiags(c, m.name, diags, len(src), hcl.InitialPos)
+		e2, diags2 := m.parse(append([]byte{}, src...), "t.hcl", hcl.InitialPos)
+		if diagsDump(diags) != diagsDump(diags2) || dumpSyntax(e) != dumpSyntax(e2) {
+			c.Failf("nondeterministic", "%s returned different results for the same input", m.name)
+		}
+		etoks, _ := m.lex(src, "t.hcl", hcl.InitialPos)
+		if !diags.HasErrors() {
+			if bad, why := unusableByTokens(etoks); bad {
+				if strings.Contains(why, "ill-formed UTF-8") && c.Known("ident-swallows-illformed-utf8") {
+					c.Class("known_ident_swallow")
+				} else {
+					c.Failf("unusable-without-error", "%s reported no error although %s", m.name, why)
+				}
+			}
+			if hasSyntaxError(e) {
+				c.Failf("syntax-error-node-without-error", "%s returned an ExprSyntaxError node without an error diagnostic", m.name)
+			}
+			if m.name == "ParseExpression" {
+				for _, tk := range significantTokens(etoks) {
+					if !withinAny(tk, []hcl.Range{e.Range()}) {
+						c.Failf("silent-loss", "%s reported no error but token %s %q at byte %d lies outside the expression's range %v", m.name, tk.Type, tk.Bytes, tk.Range.Start.Byte, e.Range())
+					}
+				}
+			}
+			var vars []hcl.Traversal
+			c.Guard(m.name+" Variables", func() { vars = e.Variables() })
+			ctx, desc := randomCtx(t, vars)
+			c.Set("eval_scope", desc)
+			var ediags hcl.Diagnostics
+			c.Guard(m.name+" Value", func() { _, ediags = e.Value(ctx) })
+			checkDiags(c, m.name+" Value", ediags, len(src), hcl.InitialPos)
+			_ = renderDiags(c, ediags, files)
+			c.Guard(m.name+" Value(nil)", func() { _, ediags = e.Value(nil) })
+			checkDiags(c, m.name+" Value(nil)", ediags, len(src), hcl.InitialPos)
+			evaluated = true
+		} else {
+			rejected = true
+		}
+	}
+
+	// --- traversal parsers
+	for _, m := range []struct {
+		name  string
+		parse func([]byte, string, hcl.Pos) (hcl.Traversal, hcl.Diagnostics)
+	}{{"ParseTraversalAbs", hclsyntax.ParseTraversalAbs}, {"ParseTraversalPartial", hclsyntax.ParseTraversalPartial}} {
+		var tr hcl.Traversal
+		c.Guard(m.name, func() { tr, diags = m.parse(src, "t.hcl", hcl.InitialPos) })
+		checkDiags(c, m.name, diags, len(src), hcl.InitialPos)
+		tr2, diags2 := m.parse(append([]byte{}, src...), "t.hcl", hcl.InitialPos)
+		if diagsDump(diags) != diagsDump(diags2) || travString(tr) != travString(tr2) {
+			c.Failf("nondeterministic", "%s returned different results for the same input", m.name)
+		}
+		if !diags.HasErrors() {
+			if len(tr) == 0 {
+				c.Failf("empty-traversal-without-error", "%s returned an empty traversal without an error", m.name)
+			}
+			etoks, _ := hclsyntax.LexExpression(src, "t.hcl", hcl.InitialPos)
+			if bad, why := unusableByTokens(etoks); bad && !(strings.Contains(why, "ill-formed UTF-8") && c.Known("ident-swallows-illformed-utf8")) {
+				c.Failf("unusable-without-error", "%s reported no error although %s", m.name, why)
+			}
+			c.Class("traversal_accepted")
+		}
+	}
+	mutantLike := kind == "mutant" || kind == "concat"
+	c.Done((rejected && mutantLike) || evaluated, text)
+}
+
+func FuzzC15_Native(f *testing.F) { hx.Fuzz(f, "C15", "Native", caseC15Native) }
 
 func TestC15_Writer(t *testing.T) {
 	hx.Run(t, "C15", "Writer", 8000,
 		"same inputs fed to hclwrite.ParseConfig and hclwrite.Format; oracle: no panic, nil file only together with errors, deterministic, Format terminates and is deterministic, diagnostics well-formed; non-trivial = rejected mutant or accepted file; distinct by input",
-		func(c *hx.Case) {
-			t := c.T
-			text, kind := drawHostileInput(t)
-			if len(text) > 4096 {
-				text = text[:4096]
-			}
-			src := []byte(text)
-			c.SetBytes("input", src)
-			c.Class("input_" + kind)
-			if hugeExpNative.Match(src) {
-				c.Done(false, "")
-				return
-			}
-			var f *hclwrite.File
-			var diags hcl.Diagnostics
-			c.Guard("hclwrite.ParseConfig", func() { f, diags = hclwrite.ParseConfig(src, "t.hcl", hcl.InitialPos) })
-			checkDiags(c, "hclwrite.ParseConfig", diags, len(src), hcl.InitialPos)
-			if f == nil && !diags.HasErrors() {
-				c.Failf("nil-file-without-error", "hclwrite.ParseConfig returned nil without an error diagnostic")
-			}
-			_, sdiags := hclsyntax.ParseConfig(src, "t.hcl", hcl.InitialPos)
-			if sdiags.HasErrors() != diags.HasErrors() {
-				c.Failf("writer-vs-syntax", "hclwrite.ParseConfig error=%v but hclsyntax.ParseConfig error=%v", diags.HasErrors(), sdiags.HasErrors())
-			}
-			if f != nil {
-				var out1, out2 []byte
-				c.Guard("File.Bytes", func() { out1 = f.Bytes() })
-				f2, _ := hclwrite.ParseConfig(append([]byte{}, src...), "t.hcl", hcl.InitialPos)
-				if f2 == nil {
-					c.Failf("nondeterministic", "second hclwrite.ParseConfig returned nil")
-				}
-				out2 = f2.Bytes()
-				if !bytes.Equal(out1, out2) {
-					c.Failf("nondeterministic", "hclwrite.ParseConfig+Bytes differ between two runs")
-				}
-				c.Class("writer_accepted")
-				c.Guard("writer accessors", func() {
-					walkWriterBody(f.Body(), 0)
-				})
-			}
-			var fm1, fm2 []byte
-			c.Guard("Format", func() { fm1 = hclwrite.Format(src) })
-			c.Guard("Format", func() { fm2 = hclwrite.Format(append([]byte{}, src...)) })
-			if !bytes.Equal(fm1, fm2) {
-				c.Failf("nondeterministic", "Format differs between two runs")
-			}
-			c.Done((diags.HasErrors() && (kind == "mutant" || kind == "concat")) || f != nil, text)
-		})
+		caseC15Writer)
 }
+
+func caseC15Writer(c *hx.Case) {
+	t := c.T
+	text, kind := drawHostileInput(t)
+	if len(text) > 4096 {
+		text = text[:4096]
+	}
+	src := []byte(text)
+	c.SetBytes("input", src)
+	c.Class("input_" + kind)
+	if hugeExpNative.Match(src) {
+		c.Done(false, "")
+		return
+	}
+	var f *hclwrite.File
+	var diags hcl.Diagnostics
+	c.Guard("hclwrite.ParseConfig", func() { f, diags = hclwrite.ParseConfig(src, "t.hcl", hcl.InitialPos) })
+	checkDiags(c, "hclwrite.ParseConfig", diags, len(src), hcl.InitialPos)
+	if f == nil && !diags.HasErrors() {
+		c.Failf("nil-file-without-error", "hclwrite.ParseConfig returned nil without an error diagnostic")
+	}
+	_, sdiags := hclsyntax.ParseConfig(src, "t.hcl", hcl.InitialPos)
+	if sdiags.HasErrors() != diags.HasErrors() {
+		c.Failf("writer-vs-syntax", "hclwrite.ParseConfig error=%v but hclsyntax.ParseConfig error=%v", diags.HasErrors(), sdiags.HasErrors())
+	}
+	if f != nil {
+		var out1, out2 []byte
+		c.Guard("File.Bytes", func() { out1 = f.Bytes() })
+		f2, _ := hclwrite.ParseConfig(append([]byte{}, src...), "t.hcl", hcl.InitialPos)
+		if f2 == nil {
+			c.Failf("nondeterministic", "second hclwrite.ParseConfig returned nil")
+		}
+		out2 = f2.Bytes()
+		if !bytes.Equal(out1, out2) {
+			c.Failf("nondeterministic", "hclwrite.ParseConfig+Bytes differ between two runs")
+		}
+		c.Class("writer_accepted")
+		c.Guard("writer accessors", func() {
+			walkWriterBody(f.Body(), 0)
+		})
+	}
+	var fm1, fm2 []byte
+	c.Guard("Format", func() { fm1 = hclwrite.Format(src) })
+	c.Guard("Format", func() { fm2 = hclwrite.Format(append([]byte{}, src...)) })
+	if !bytes.Equal(fm1, fm2) {
+		c.Failf("nondeterministic", "Format differs between two runs")
+	}
+	c.Done((diags.HasErrors() && (kind == "mutant" || kind == "concat")) || f != nil, text)
+}
+
+func FuzzC15_Writer(f *testing.F) { hx.Fuzz(f, "C15", "Writer", caseC15Writer) }
 
 func walkWriterBody(b *hclwrite.Body, depth int) {
 	for _, a := range b.Attributes() {
@@ -491,84 +499,88 @@ func walkWriterBody(b *hclwrite.Body, depth int) {
 func TestC15_JSON(t *testing.T) {
 	hx.Run(t, "C15", "JSON", 10000,
 		"byte string (valid JSON documents, near-miss mutants, hostile bytes) fed to json.Parse and json.ParseExpression; oracle: no panic, non-nil result, deterministic, rejection by the RFC 8259 recogniser implies an error diagnostic, in-bounds diagnostics, schema application and evaluation (nil and random contexts) panic-free; non-trivial = rejected mutant or evaluated document; distinct by input",
-		func(c *hx.Case) {
-			t := c.T
-			var text, kind string
-			switch rapid.IntRange(0, 5).Draw(t, "kind") {
-			case 0:
-				text, kind = gen.HostileBytes().Draw(t, "bytes"), "bytes"
-			case 1:
-				doc := gen.DrawJSON(t, gen.JSONOpts{Depth: 3, Strings: jsonTemplateStrings(), Keys: jsonTemplateKeys})
-				text, _ = gen.RenderJSON(doc, rchooser{t}, true)
-				kind = "valid"
-			default:
-				doc := gen.DrawJSON(t, gen.JSONOpts{Depth: 3, Strings: jsonTemplateStrings(), Keys: jsonTemplateKeys})
-				base, _ := gen.RenderJSON(doc, rchooser{t}, rapid.Bool().Draw(t, "wild"))
-				text, _ = gen.MutateJSON(t, base)
-				kind = "mutant"
-			}
-			src := []byte(text)
-			c.SetBytes("input", src)
-			c.Class("input_" + kind)
-			if hugeExpNative.Match(src) {
-				c.Done(false, "")
-				return
-			}
-			verdict, _ := ref.RecogniseJSON(src)
-			var f *hcl.File
-			var diags hcl.Diagnostics
-			c.Guard("json.Parse", func() { f, diags = hcljson.Parse(src, "t.json") })
-			if f == nil || f.Body == nil {
-				c.Failf("nil-result", "json.Parse returned a nil file or body")
-			}
-			checkDiags(c, "json.Parse", diags, len(src), hcl.InitialPos)
-			_, diags2 := hcljson.Parse(append([]byte{}, src...), "t.json")
-			if diagsDump(diags) != diagsDump(diags2) {
-				c.Failf("nondeterministic", "json.Parse diagnostics differ between two runs")
-			}
-			if verdict == ref.JSONInvalid && !diags.HasErrors() {
-				c.Failf("unusable-without-error", "json.Parse accepted text the RFC 8259 recogniser rejects")
-			}
-			files := map[string]*hcl.File{"t.json": f}
-			_ = renderDiags(c, diags, files)
-			exerciseBody(c, "json", f.Body, len(src), !diags.HasErrors(), 0)
-			var e hcl.Expression
-			c.Guard("json.ParseExpression", func() { e, diags = hcljson.ParseExpression(src, "t.json") })
-			if e == nil {
-				c.Failf("nil-result", "json.ParseExpression returned nil")
-			}
-			checkDiags(c, "json.ParseExpression", diags, len(src), hcl.InitialPos)
-			if verdict == ref.JSONInvalid && !diags.HasErrors() {
-				c.Failf("unusable-without-error", "json.ParseExpression accepted text the RFC 8259 recogniser rejects")
-			}
-			evaluated := false
-			if !diags.HasErrors() {
-				var vars []hcl.Traversal
-				c.Guard("json Variables", func() { vars = e.Variables() })
-				ctx, desc := randomCtx(t, vars)
-				c.Set("eval_scope", desc)
-				var ediags hcl.Diagnostics
-				c.Guard("json Value(ctx)", func() { _, ediags = e.Value(ctx) })
-				if !utf8.Valid(src) && c.Known("json-template-range-after-illformed-utf8") {
-					// decoded string content is longer than its source bytes: ranges are shifted (known)
-					ediags = nil
-				}
-				checkDiags(c, "json Value(ctx)", ediags, len(src), hcl.InitialPos)
-				_ = renderDiags(c, ediags, files)
-				c.Guard("json Value(nil)", func() { _, ediags = e.Value(nil) })
-				checkDiags(c, "json Value(nil)", ediags, len(src), hcl.InitialPos)
-				c.Guard("json static analysis", func() {
-					_, _ = hcl.ExprList(e)
-					_, _ = hcl.ExprMap(e)
-					_, _ = hcl.ExprCall(e)
-					_, _ = hcl.AbsTraversalForExpr(e)
-					_ = hcl.ExprAsKeyword(e)
-				})
-				evaluated = true
-			}
-			c.Done((diags.HasErrors() && kind == "mutant") || evaluated, text)
-		})
+		caseC15JSON)
 }
+
+func caseC15JSON(c *hx.Case) {
+	t := c.T
+	var text, kind string
+	switch rapid.IntRange(0, 5).Draw(t, "kind") {
+	case 0:
+		text, kind = gen.HostileBytes().Draw(t, "bytes"), "bytes"
+	case 1:
+		doc := gen.DrawJSON(t, gen.JSONOpts{Depth: 3, Strings: jsonTemplateStrings(), Keys: jsonTemplateKeys})
+		text, _ = gen.RenderJSON(doc, rchooser{t}, true)
+		kind = "valid"
+	default:
+		doc := gen.DrawJSON(t, gen.JSONOpts{Depth: 3, Strings: jsonTemplateStrings(), Keys: jsonTemplateKeys})
+		base, _ := gen.RenderJSON(doc, rchooser{t}, rapid.Bool().Draw(t, "wild"))
+		text, _ = gen.MutateJSON(t, base)
+		kind = "mutant"
+	}
+	src := []byte(text)
+	c.SetBytes("input", src)
+	c.Class("input_" + kind)
+	if hugeExpNative.Match(src) {
+		c.Done(false, "")
+		return
+	}
+	verdict, _ := ref.RecogniseJSON(src)
+	var f *hcl.File
+	var diags hcl.Diagnostics
+	c.Guard("json.Parse", func() { f, diags = hcljson.Parse(src, "t.json") })
+	if f == nil || f.Body == nil {
+		c.Failf("nil-result", "json.Parse returned a nil file or body")
+	}
+	checkDiags(c, "json.Parse", diags, len(src), hcl.InitialPos)
+	_, diags2 := hcljson.Parse(append([]byte{}, src...), "t.json")
+	if diagsDump(diags) != diagsDump(diags2) {
+		c.Failf("nondeterministic", "json.Parse diagnostics differ between two runs")
+	}
+	if verdict == ref.JSONInvalid && !diags.HasErrors() {
+		c.Failf("unusable-without-error", "json.Parse accepted text the RFC 8259 recogniser rejects")
+	}
+	files := map[string]*hcl.File{"t.json": f}
+	_ = renderDiags(c, diags, files)
+	exerciseBody(c, "json", f.Body, len(src), !diags.HasErrors(), 0)
+	var e hcl.Expression
+	c.Guard("json.ParseExpression", func() { e, diags = hcljson.ParseExpression(src, "t.json") })
+	if e == nil {
+		c.Failf("nil-result", "json.ParseExpression returned nil")
+	}
+	checkDiags(c, "json.ParseExpression", diags, len(src), hcl.InitialPos)
+	if verdict == ref.JSONInvalid && !diags.HasErrors() {
+		c.Failf("unusable-without-error", "json.ParseExpression accepted text the RFC 8259 recogniser rejects")
+	}
+	evaluated := false
+	if !diags.HasErrors() {
+		var vars []hcl.Traversal
+		c.Guard("json Variables", func() { vars = e.Variables() })
+		ctx, desc := randomCtx(t, vars)
+		c.Set("eval_scope", desc)
+		var ediags hcl.Diagnostics
+		c.Guard("json Value(ctx)", func() { _, ediags = e.Value(ctx) })
+		if !utf8.Valid(src) && c.Known("json-template-range-after-illformed-utf8") {
+			// decoded string content is longer than its source bytes: ranges are shifted (known)
+			ediags = nil
+		}
+		checkDiags(c, "json Value(ctx)", ediags, len(src), hcl.InitialPos)
+		_ = renderDiags(c, ediags, files)
+		c.Guard("json Value(nil)", func() { _, ediags = e.Value(nil) })
+		checkDiags(c, "json Value(nil)", ediags, len(src), hcl.InitialPos)
+		c.Guard("json static analysis", func() {
+			_, _ = hcl.ExprList(e)
+			_, _ = hcl.ExprMap(e)
+			_, _ = hcl.ExprCall(e)
+			_, _ = hcl.AbsTraversalForExpr(e)
+			_ = hcl.ExprAsKeyword(e)
+		})
+		evaluated = true
+	}
+	c.Done((diags.HasErrors() && kind == "mutant") || evaluated, text)
+}
+
+func FuzzC15_JSON(f *testing.F) { hx.Fuzz(f, "C15", "JSON", caseC15JSON) }
 
 var jsonTemplateKeys = append(append([]string{}, gen.KeyPool...), "${a}", "${b}", "x${a}", "${a.id}", "${a}${b}", "%{if a}k%{endif}", "${null}", "${[a]}")
 
